@@ -535,7 +535,70 @@ func (x *xtr) callStmt(c *ast.CallExpr) string {
 		}
 		return fmt.Sprintf("let %s : %s := %s %s %s", ident(id.Name), ty.lean(), fn, ident(id.Name), x.co(c.Args[1], cmp, want))
 	}
+	if name == "copy" {
+		return x.copyStmt(c)
+	}
 	x.bad(c, "call statement %s", name)
+	return ""
+}
+
+// copy(dst, src) as a statement (the count it returns is dropped by Go too).  dst is `v`, `v[lo:hi]`, `s.f` or `s.f[lo:hi]` for
+// a slice variable v / a modelled slice field f of a struct variable s: the first min(len(dst), len(src)) items of the
+// destination WINDOW are overwritten (Go.copyInto), the rest of the variable stays.  The usual alias rules apply: a destination
+// that may share its backing array with another variable is rejected (the source is a different value by assumption for parameters)
+func (x *xtr) copyStmt(c *ast.CallExpr) string {
+	if len(c.Args) != 2 {
+		x.bad(c, "copy arity")
+	}
+	dst := c.Args[0]
+	lo, hi := "0", ""
+	if se, ok := dst.(*ast.SliceExpr); ok {
+		if se.Slice3 {
+			x.bad(c, "copy into a 3-index slice")
+		}
+		if se.Low != nil {
+			lo = x.intExpr(se.Low)
+		}
+		if se.High != nil {
+			hi = x.intExpr(se.High)
+		}
+		dst = se.X
+	}
+	src := x.expr(c.Args[1])
+	x.usesRtX = true
+	window := func(cur string) string {
+		h := hi
+		if h == "" {
+			h = "Go.len " + paren(cur)
+		}
+		return fmt.Sprintf("Go.copyInto %s %s %s", paren(cur), paren(lo), paren(h))
+	}
+	switch d := dst.(type) {
+	case *ast.Ident:
+		ty, ok := x.env[d.Name]
+		if !ok || ty.k != kList {
+			x.bad(c, "copy into %s, which is not a slice variable", d.Name)
+		}
+		if x.shared[d.Name] {
+			x.bad(c, "copy into %s, which may share its backing array with another variable", d.Name)
+		}
+		if x.mentions(c.Args[1], d.Name) {
+			x.bad(c, "copy whose source mentions its destination %s (overlapping copy)", d.Name)
+		}
+		return fmt.Sprintf("let %s : %s := %s %s", ident(d.Name), ty.lean(), window(ident(d.Name)), paren(x.co(c.Args[1], src, ty)))
+	case *ast.SelectorExpr:
+		if x.mentions(c.Args[1], lvalueBase(d)) && strings.Contains(exprText(c.Args[1]), exprText(d)) {
+			x.bad(c, "copy whose source mentions its destination %s (overlapping copy)", exprText(d))
+		}
+		var fty *xty
+		out := x.storeField(c, d, func(cur string, ty *xty) string {
+			fty = ty
+			return window(cur) + " " + paren(x.co(c.Args[1], src, ty))
+		})
+		_ = fty
+		return out
+	}
+	x.bad(c, "copy destination %T", dst)
 	return ""
 }
 
@@ -867,7 +930,17 @@ func translateExt(fset *token.FileSet, load fileLoader, sp spec, known map[strin
 		for _, n := range p.Names {
 			ty := x.goTy(p.Type)
 			if _, isPtr := p.Type.(*ast.StarExpr); isPtr {
-				x.ptrParams[n.Name] = true
+				// a fragment that names the pointer parameter among its Results RETURNS the struct it points to: writes
+				// through it are what the fragment computes, not a hidden effect on the caller
+				returned := false
+				if sp.Frag != nil {
+					for _, r := range sp.Frag.Results {
+						returned = returned || r == n.Name
+					}
+				}
+				if !returned {
+					x.ptrParams[n.Name] = true
+				}
 			}
 			if oracle[n.Name] {
 				if ty.k != kFunc {
@@ -1101,6 +1174,13 @@ func fragmentFunc(fset *token.FileSet, fd *ast.FuncDecl, sp spec) *ast.FuncDecl 
 		for i, s := range b.List {
 			if !strings.HasPrefix(line(s), fr.First) {
 				continue
+			}
+			if fr.Has != "" {
+				var w strings.Builder
+				printer.Fprint(&w, fset, s)
+				if !strings.Contains(strings.Join(strings.Fields(w.String()), " "), fr.Has) {
+					continue
+				}
 			}
 			matches++
 			for j := i; j < len(b.List); j++ {
